@@ -67,13 +67,34 @@ static int count_dir(std::string const &dir)
 	return n;
 }
 
+// descriptors of this process that are open on a file inside the upload directory (a removed but still open
+// file shows up as "<path> (deleted)" and is counted as well)
+static int count_fds(std::string const &dir)
+{
+	int n = 0;
+	DIR *d = opendir("/proc/self/fd");
+	if (!d) return -1;
+	std::string pre = dir + "/";
+	while (struct dirent *e = readdir(d)) {
+		if (e->d_name[0] == '.') continue;
+		char buf[4096];
+		std::string lnk = std::string("/proc/self/fd/") + e->d_name;
+		ssize_t k = readlink(lnk.c_str(), buf, sizeof(buf) - 1);
+		if (k <= 0) continue;
+		buf[k] = 0;
+		if (strncmp(buf, pre.c_str(), pre.size()) == 0) n++;
+	}
+	closedir(d);
+	return n;
+}
+
 // ------------------------------------------------------------------------------------------ server side
 struct req_log {
-	int n_new, n_end, n_err, n_main2, tmp_main, raw_chunks;
+	int n_new, n_end, n_err, n_main2, tmp_main, raw_chunks, fd_main, tmp_acts, fd_acts;
 	std::vector<std::string> readyd;
 	std::string raw, dump;
 	std::vector<std::string> flags;
-	void clear() { n_new = n_end = n_err = n_main2 = raw_chunks = 0; tmp_main = -1; readyd.clear(); raw.clear(); dump.clear(); flags.clear(); }
+	void clear() { n_new = n_end = n_err = n_main2 = raw_chunks = 0; tmp_main = -1; fd_main = tmp_acts = fd_acts = -1; readyd.clear(); raw.clear(); dump.clear(); flags.clear(); }
 };
 static std::mutex g_mx;
 static req_log g_log;
@@ -81,6 +102,13 @@ static std::atomic<int> g_live(0);   // context-specific objects alive = request
 static void flag(char const *f) { std::lock_guard<std::mutex> g(g_mx); g_log.flags.push_back(f); }
 
 struct life { life() { g_live++; } ~life() { g_live--; } };
+static std::vector<booster::shared_ptr<cppcms::http::file> > g_kept;   // references the application keeps beyond the request
+static std::string read_whole(std::string const &path)
+{
+	std::string r; FILE *f = fopen(path.c_str(), "rb"); if (!f) return r;
+	char buf[65536]; size_t n; while ((n = fread(buf, 1, sizeof(buf), f)) > 0) r.append(buf, n);
+	fclose(f); return r;
+}
 
 static std::string slurp(cppcms::http::file &f)
 {
@@ -95,14 +123,15 @@ static std::string slurp(cppcms::http::file &f)
 }
 
 struct mp_filter : public cppcms::http::multipart_filter {
-	long long last_size; std::string last_partial; bool open;
-	mp_filter() : last_size(0), open(false) {}
+	long long last_size; std::string last_partial; bool open; int abort_at, seen;
+	mp_filter(int ab = 0) : last_size(0), open(false), abort_at(ab), seen(0) {}
 	virtual void on_new_file(cppcms::http::file &f)
 	{
 		if (open) flag("NEW-BEFORE-READY");
 		open = true; last_size = 0; last_partial.clear();
 		if (f.size() != 0) flag("NEW-FILE-NOT-EMPTY");
-		std::lock_guard<std::mutex> g(g_mx); g_log.n_new++;
+		{ std::lock_guard<std::mutex> g(g_mx); g_log.n_new++; }
+		if (++seen == abort_at) throw cppcms::http::abort_upload(403);   // mode a<k>: the filter refuses the k-th entry
 	}
 	virtual void on_upload_progress(cppcms::http::file &f)
 	{
@@ -156,11 +185,26 @@ public:
 			rq.limits().uploads_path(g_updir);
 			std::string mode = rq.get("mode");
 			if (mode == "m") rq.reset_content_filter(new mp_filter());
+			else if (mode[0] == 'a') rq.reset_content_filter(new mp_filter(atoi(mode.c_str() + 1)));
 			else if (mode == "r") rq.reset_content_filter(new raw_filter());
 			return;
 		}
 		if (!context().get_specific<life>()) context().reset_specific<life>(new life());   // Content-Length: 0
 		std::string b;
+		if (rq.path_info() == "/g") {
+			// gq: what request::prepare made of QUERY_STRING
+			std::vector<std::string> v;
+			typedef cppcms::http::request::form_type form_type;
+			for (form_type::const_iterator p = rq.get().begin(); p != rq.get().end(); ++p) v.push_back(hex(p->first) + "=" + hex(p->second));
+			std::sort(v.begin(), v.end());
+			std::ostringstream ss; ss << "G " << v.size();
+			for (size_t i = 0; i < v.size(); i++) ss << " " << v[i];
+			{ std::lock_guard<std::mutex> g(g_mx); g_log.n_main2++; g_log.dump = ss.str(); }
+			response().set_plain_text_header();
+			response().out() << "ok";
+			release_context()->async_complete_response();
+			return;
+		}
 		{
 			std::vector<std::string> v;
 			typedef cppcms::http::request::form_type form_type;
@@ -173,17 +217,50 @@ public:
 		{
 			cppcms::http::request::files_type f = rq.files();
 			std::ostringstream ss; ss << " F " << f.size();
+			std::vector<std::string> datas;
 			for (size_t i = 0; i < f.size(); i++) {
 				std::string d = slurp(*f[i]);
 				if ((long long)d.size() != f[i]->size()) flag("FILE-SIZE-VS-DATA");
+				datas.push_back(d);
 				ss << " " << hex(f[i]->name()) << "," << hex(f[i]->filename()) << "," << hex(f[i]->mime()) << "," << hex(d);
 			}
 			b += ss.str();
+			{ std::lock_guard<std::mutex> g(g_mx); g_log.tmp_main = count_dir(g_updir); g_log.fd_main = count_fds(g_updir); }
+			// what the application does with the uploaded files: act=<c|s|p|k><index>.<...>
+			std::string acts = rq.get("act");
+			size_t pos = 0; int nsaved = 0; std::vector<bool> touched(f.size(), false);
+			while (pos < acts.size()) {
+				size_t e = acts.find('.', pos); if (e == std::string::npos) e = acts.size();
+				std::string a = acts.substr(pos, e - pos); pos = e + 1;
+				if (a.size() < 2) continue;
+				size_t k = strtoul(a.c_str() + 1, 0, 10);
+				if (k >= f.size()) continue;
+				try {
+					switch (a[0]) {
+					case 'c': f[k]->close(); touched[k] = true; break;
+					case 's': {
+							std::ostringstream tn; tn << g_dir << "/saved/" << nsaved++;
+							long long before = f[k]->size();
+							f[k]->save_to(tn.str());
+							std::string got = read_whole(tn.str());
+							// saving a file that was neither closed nor saved before must store exactly the uploaded bytes
+							if (!touched[k] && (got != datas[k] || before != (long long)got.size())) flag("SAVED-CONTENT-DIFFERS");
+							touched[k] = true;
+							::unlink(tn.str().c_str());
+						}
+						break;
+					case 'p': f[k]->make_permanent(); break;
+					case 'k': g_kept.push_back(f[k]); break;
+					}
+				}
+				catch (std::exception const &) { flag("ACT-THREW"); }
+			}
+			{ std::lock_guard<std::mutex> g(g_mx); g_log.tmp_acts = count_dir(g_updir); g_log.fd_acts = count_fds(g_updir); }
 		}
 		if (rq.raw_post_data().second != 0 && rq.content_type_parsed().is_multipart_form_data()) flag("RAW-POST-DATA-KEPT");
 		{
 			std::lock_guard<std::mutex> g(g_mx);
-			g_log.n_main2++; g_log.tmp_main = count_dir(g_updir); g_log.dump = b;
+			g_log.n_main2++; g_log.dump = b;
 		}
 		response().set_plain_text_header();
 		response().out() << "ok";
@@ -271,6 +348,7 @@ int main()
 	g_dir = &tb[0];
 	g_updir = g_dir + "/up";
 	mkdir(g_updir.c_str(), 0700);
+	mkdir((g_dir + "/saved").c_str(), 0700);
 	cppcms::json::value cfg;
 	cfg["service"]["api"] = "scgi";
 	cfg["service"]["socket"] = g_dir + "/scgi.sock";
@@ -289,19 +367,34 @@ int main()
 		while (std::getline(std::cin, line)) {
 			alarm(300); // watchdog against a hanging request
 			std::vector<std::string> v = split(line);
-			if (!((v.size() == 10 || v.size() == 11) && v[0] == "rq")) { std::cout << "BAD-CASE" << std::endl; continue; }
+			bool rf = !v.empty() && v[0] == "rf";
+			bool gq = !v.empty() && v[0] == "gq" && v.size() >= 2;
+			if (gq) {
+				// gq <query-hex> [expectation]  ==  GET /g?<query> without content
+				std::vector<std::string> w;
+				w.push_back("rq"); w.push_back("n"); w.push_back("0"); w.push_back("0"); w.push_back("0"); w.push_back("64"); w.push_back("0");
+				w.push_back("-"); w.push_back("-"); w.push_back("-");
+				w.push_back(v[1]);
+				v = w;
+			}
+			else if (rf && v.size() >= 11) { /* rf = rq + <acts> */ }
+			else if (!((v.size() == 10 || v.size() == 11) && v[0] == "rq")) { std::cout << "BAD-CASE" << std::endl; continue; }
 			for (int i = 0; i < 200000 && g_live > 0; i++) usleep(100);   // previous request fully gone
 			{ std::lock_guard<std::mutex> g(g_mx); g_log.clear(); }
 			std::string mode = v[1], ct = unhex(v[7]), body = unhex(v[9]);
 			long long declared = atoll(v[6].c_str());
 			std::string q = "mode=" + mode + "&cl=" + v[2] + "&mp=" + v[3] + "&mem=" + v[4] + "&buf=" + v[5];
+			if (rf && v[10] != "-") q += "&act=" + v[10];
+			if (gq) q = unhex(v[10]);
+			g_kept.clear();
+			int dir_base = count_dir(g_updir), fd_base = count_fds(g_updir);   // what earlier requests may have left is theirs
 			std::string blob;
 			{
 				std::ostringstream cl; cl << declared;
-				char const *kv[][2] = { {"CONTENT_LENGTH", 0}, {"SCGI", "1"}, {"REQUEST_METHOD", "POST"}, {"SCRIPT_NAME", ""}, {"PATH_INFO", "/u"},
+				char const *kv[][2] = { {"CONTENT_LENGTH", 0}, {"SCGI", "1"}, {"REQUEST_METHOD", "POST"}, {"SCRIPT_NAME", ""}, {"PATH_INFO", 0},
 				                        {"QUERY_STRING", 0}, {"CONTENT_TYPE", 0}, {"HTTP_HOST", "localhost"} };
 				for (size_t i = 0; i < sizeof(kv) / sizeof(kv[0]); i++) {
-					std::string val = kv[i][1] ? std::string(kv[i][1]) : (i == 0 ? cl.str() : i == 5 ? q : ct);
+					std::string val = kv[i][1] ? std::string(kv[i][1]) : (i == 0 ? cl.str() : i == 4 ? std::string(gq ? "/g" : "/u") : i == 5 ? q : ct);
 					blob += kv[i][0]; blob += '\0'; blob += val; blob += '\0';
 				}
 			}
@@ -323,9 +416,29 @@ int main()
 			c.closefd();
 			for (int i = 0; i < 200000 && g_live > 0; i++) usleep(100);
 			// the request object (parser, files) goes away right after the context-specific data: give it a moment
-			int left = count_dir(g_updir);
-			for (int i = 0; i < 50000 && left > 0; i++) { usleep(100); left = count_dir(g_updir); }
-			if (left > 0) { std::string cmd = "rm -f '" + g_updir + "'/*"; if (system(cmd.c_str())) {} }
+			int left = count_dir(g_updir) - dir_base;
+			int fd_left = count_fds(g_updir) - fd_base, left3 = 0, fd3 = 0;
+			static bool leaked_before = false;    // after a first leak the check fails anyway: do not wait 5 s in every later case
+			if (!rf) {
+				for (int i = 0; i < (leaked_before ? 2000 : 50000) && (left > 0 || fd_left > 0); i++) {
+					usleep(100); left = count_dir(g_updir) - dir_base; fd_left = count_fds(g_updir) - fd_base;
+				}
+			}
+			else {
+				// the application may have kept references or made files permanent: wait until the counts have been stable for
+				// 50 ms (the request is destroyed a few instructions after the context-specific object)
+				int stable = 0;
+				for (int i = 0; i < 100000 && stable < 500; i++) {
+					usleep(100);
+					int l2 = count_dir(g_updir) - dir_base, f2 = count_fds(g_updir) - fd_base;
+					if (l2 == left && f2 == fd_left) stable++; else { stable = 0; left = l2; fd_left = f2; }
+				}
+				left3 = left; fd3 = fd_left;
+				g_kept.clear();          // the application drops the references it kept
+				left = count_dir(g_updir) - dir_base; fd_left = count_fds(g_updir) - fd_base;
+			}
+			if (left > 0 || fd_left > 0) leaked_before = true;
+			if (count_dir(g_updir) > 0) { std::string cmd = "rm -f '" + g_updir + "'/*"; if (system(cmd.c_str())) {} }
 			std::string status = "none";
 			if (!resp.empty()) {
 				status = "200";
@@ -337,12 +450,19 @@ int main()
 			}
 			req_log L;
 			{ std::lock_guard<std::mutex> g(g_mx); L = g_log; }
-			out << "rq " << status << " ";
+			if (gq) {
+				req_log Lg; { std::lock_guard<std::mutex> g(g_mx); Lg = g_log; }
+				std::cout << "gq " << status << " " << (status == "200" ? (Lg.dump.empty() ? std::string("NO-DUMP") : Lg.dump) : std::string("G 0")) << std::endl;
+				continue;
+			}
+			out << (rf ? "rf " : "rq ") << status << " ";
 			if (status == "200") out << (L.dump.empty() ? std::string("NO-DUMP") : L.dump); else out << "P 0 F 0";
 			out << " L new=" << L.n_new << " ready=" << L.readyd.size();
 			for (size_t i = 0; i < L.readyd.size(); i++) out << (i ? ";" : ":") << L.readyd[i];
 			out << " end=" << L.n_end << " err=" << L.n_err << " raw=" << hex(L.raw);
 			out << " tmp=" << (status == "200" ? L.tmp_main : 0) << "," << left;
+			out << " fd=" << (status == "200" ? L.fd_main : 0) << "," << fd_left;
+			if (rf) out << " R " << (status == "200" ? L.fd_acts : 0) << "," << (status == "200" ? L.tmp_acts : 0) << ";" << fd3 << "," << left3;
 			if (status != "200" && L.n_main2) out << " APP-RAN-ON-REFUSED-REQUEST";
 			if (status == "200" && L.n_main2 != 1) out << " APP-RAN-" << L.n_main2 << "-TIMES";
 			if (timeout) out << " TIMEOUT";
@@ -351,6 +471,11 @@ int main()
 			L.flags.erase(std::unique(L.flags.begin(), L.flags.end()), L.flags.end());
 			for (size_t i = 0; i < L.flags.size(); i++) out << " " << L.flags[i];
 			std::cout << out.str() << std::endl;
+			if (timeout) {
+				// no answer within 30 s: the server thread is stuck; do not make every following case wait as well
+				std::cout << "HARNESS-SERVER-HUNG" << std::endl;
+				_exit(4);
+			}
 		}
 		srv.shutdown();
 		th.join();
